@@ -96,7 +96,8 @@ MONITOR = "vlib.monitors.masterworker"
 # scripted alphabet ------------------------------------------------------------------------------
 DYING = ["die0", "die-delay", "close", "raise"]
 SENDING = ["send-ok", "send-err", "send-die"]
-EXTRA_DYING = ["sigkill", "partial-die", "close-linger", "die-orphan", "orphan-hang", "real-die", "real-kbd", "real-sysexit"]
+EXTRA_DYING = ["sigkill", "partial-die", "close-linger", "die-orphan", "orphan-hang", "orphan-hang-exit0", "orphan-hang-return", "real-die", "real-kbd",
+               "real-sysexit"]
 HANGS = ["hang"]
 EXTRA_SENDING = ["send-nogen", "real-ok", "real-raise"]
 TERMINAL = set(SENDING) | set(EXTRA_SENDING)
@@ -571,7 +572,7 @@ def _stub_worker_main(task, sending_connection):
         _wlog(f"{pid} {idx} hang {step}")
         while True:
             time.sleep(60)
-    if step in ("die-orphan", "orphan-hang"):
+    if step in ("die-orphan", "orphan-hang", "orphan-hang-exit0", "orphan-hang-return"):
         # the worker dies, but a descendant (like a daemon process of SubprocessTestCaseExecutor, which inherits every
         # descriptor on fork) still holds the write end of the result pipe for a while / for ever
         gpid = os.fork()
@@ -579,7 +580,11 @@ def _stub_worker_main(task, sending_connection):
             time.sleep(0.6 if step == "die-orphan" else 3600)
             os._exit(0)
         _wlog(f"{pid} {idx} orphan {gpid}")
-        os._exit(3)  # the worker is dead in both cases: "orphan-hang" is a dying step, not a hang
+        if step == "orphan-hang-exit0":
+            os._exit(0)  # a worker may also end with exit status 0 without having sent anything (e.g. os._exit(0) in the SUT)
+        if step == "orphan-hang-return":
+            return  # worker_main returns without sending: the process exits normally (status 0), its descendant lives on
+        os._exit(3)  # the worker is dead in all cases: "orphan-hang" is a dying step, not a hang
     if step in ("send-ok", "send-die", "send-nogen", "send-err"):
         if step == "send-err":
             res = w.WorkerResult(task_id=task.task_id, worker_return_code=w.WorkerReturnCode.OK, return_code=None,
